@@ -7,6 +7,7 @@ comma separated code points, `-` = empty):
   list  L <adapters>                    L = [a1, a2, ...]            (a list object of the caller)
   lappend L <adapter>                   L.append(a)
   dict  D <k=v;k=v|->                   D = {k: v, ...}              (a str -> str dict object of the caller)
+  data  O <json value>                  O = a structured data= object of the caller (dict, list, number, bool, None)
   pairs P <d|l|t> <k=val;..|->          P = a params object: dict | list of (k, v) pairs | tuple of pairs; a key may
                                         repeat in a sequence; val = s<str> | i<int> | T | F | N
   class K <mro> <bases|-> <pmap|~> <wrappers|->
@@ -38,7 +39,7 @@ comma separated code points, `-` = empty):
   cls     : H (HttpConn) | B | C | T (BAuthConn / ClientAuthConn / TokenAuthConn; own = o=<b|c|t adapter>)
   verb    : get|post|put|delete|patch | raw=<method>|raw=n (conn_impl.do_request(conn.adapters, path, method, …))
   params  : n | <D> | <P>               headers: n | <D>
-  body    : n | b=<bytes> | s=<str> | j=<json value>          (anything else: dumped by json.dumps)
+  body    : n | b=<bytes> | s=<str> | j=<O>                   (O: a structured object of the caller, dumped by json.dumps)
   response: E (empty body) | <json value>                     (body of the fake response, json.dumps of the value)
   raw     : 0 | 1                                             (raw_response=True: processors get the response object)
   json value: tokens joined by `|`: N T F I<int> S<str> A<n> (n values follow) O<n> (n times K<key>, value); R = the
@@ -171,13 +172,33 @@ def translate(repo):
     # the request-id literals (C16): taken from the source when it shows them, else the documented ones
     id_header = id_header or "X-Request-ID"
     id_lower = id_lower or id_header.lower()
+    # the two aliasing facts the heap model builds in (Model/HttpConn.lean: `request` allocates a new dict for
+    # RequestArguments.headers, `mkConn` allocates a new adapter list): read from the source on every run
+    ra_init = _find_func(_find_class(tree.body, "RequestArguments").body, "__init__")
+    headers_fresh = False
+    for n in ast.walk(ra_init):
+        if isinstance(n, ast.Assign) and isinstance(n.targets[0], ast.Attribute) and n.targets[0].attr == "headers":
+            v = n.value
+            headers_fresh = (isinstance(v, ast.IfExp) and isinstance(v.body, ast.Call)
+                             and isinstance(v.body.func, ast.Attribute) and v.body.func.attr == "copy"
+                             and isinstance(v.body.func.value, ast.Name) and v.body.func.value.id == "headers"
+                             and not v.body.args and isinstance(v.orelse, ast.Dict) and not v.orelse.keys)
+    base_init = _find_func(_find_class(tree.body, "_HttpConnBase").body, "__init__")
+    assigns = [n for n in ast.walk(base_init)
+               if isinstance(n, (ast.Assign, ast.AugAssign))
+               and isinstance((n.targets[0] if isinstance(n, ast.Assign) else n.target), ast.Attribute)
+               and (n.targets[0] if isinstance(n, ast.Assign) else n.target).attr == "adapters"]
+    adapters_fresh = (len(assigns) == 1 and isinstance(assigns[0], ast.Assign)
+                      and isinstance(assigns[0].value, ast.BinOp) and isinstance(assigns[0].value.op, ast.Add))
+    flags = "\ndef headersFresh : Bool := %s\ndef adaptersFresh : Bool := %s" % (
+        "true" if headers_fresh else "false", "true" if adapters_fresh else "false")
     body = "\n".join("def %s : List Char := %s" % (k, _lean_str(v)) for k, v in [
         ("authHeader", b[0]), ("basicPrefix", b[2]), ("clientPrefix", c[2]), ("bearerPrefix", t[2]),
         ("idHeader", id_header), ("idHeaderLower", id_lower), ("ctHeader", ct_header), ("ctValue", ct_value),
         ("postMethod", post), ("getMethod", get), ("credSep", b[3])])
     return {"AkVerif/Gen/C17.lean":
             "-- GENERATED by harness/c17.py:translate from /repo/ak/conn_http.py -- do not edit\n"
-            "namespace Gen.C17\n" + body + "\nend Gen.C17\n"}
+            "namespace Gen.C17\n" + body + flags + "\nend Gen.C17\n"}
 
 
 # ------------------------------------------------------------------ real code
@@ -391,7 +412,7 @@ def parse_wrappers(tok):
     return out
 
 
-def parse_body(tok):
+def parse_body(tok, objs=None):
     f = tok.split("=")
     if f[0] == "n":
         return None
@@ -400,7 +421,7 @@ def parse_body(tok):
     if f[0] == "s":
         return dec_str(f[1])
     if f[0] == "j":
-        return dec_json(f[1])
+        return objs[int(f[1])]       # a structured object of the caller, by name
     raise ValueError("bad body " + tok)
 
 
@@ -430,6 +451,17 @@ def make_adapter(d):
     return cls()
 
 
+def enc_snapshot(values):
+    """type-exact rendering of data objects (True is not 1, key order counts)"""
+    out = []
+    for v in values:
+        try:
+            out.append(enc_json(v) if not isinstance(v, (bytes, str)) or v is None else repr(v))
+        except ValueError:
+            out.append(repr(v))
+    return out
+
+
 class _BadOp(Exception):
     """a line names an object the history has not made (the driver answers `bad-op` too)"""
 
@@ -445,6 +477,7 @@ class Env:
     def __init__(self, lines):
         self.lists, self.dicts, self.conns, self.callers = _Names(), _Names(), _Names(), _Names()
         self.pairs = _Names()     # params objects: dicts with non-str values, lists / tuples of pairs
+        self.datas = _Names()     # structured data= objects (dicts, lists, numbers ...)
         self.captured = []
         self.response = [b""]     # body of the next fake response
         self.last_id = "none"
@@ -513,6 +546,7 @@ class Env:
         return ("l", self.lists[int(f[1])])
 
     def snapshot(self, data=None):
+        data = [data] + [v for _, v in sorted(self.datas.items())]     # every structured object, not only this one
         return ([(k, dict(d)) for k, d in sorted(self.dicts.items())] +
                 [(k, (type(p).__name__, list(p.items()) if isinstance(p, dict) else list(p)))
                  for k, p in sorted(self.pairs.items())],
@@ -521,7 +555,7 @@ class Env:
 
     def unchanged(self, snap, data):
         now = self.snapshot(data)
-        if now[0] != snap[0] or now[2] != snap[2] or type(now[2]) is not type(snap[2]):
+        if now[0] != snap[0] or enc_snapshot(now[2]) != enc_snapshot(snap[2]):
             return False
         if len(now[1]) != len(snap[1]):
             return False
@@ -544,7 +578,7 @@ class Env:
         """f = [verb, path, params, body, headers, response, raw]; runner(fn) calls fn(conn)"""
         verb, path = f[0], dec_str(f[1])
         params = self.params(f[2])
-        data = parse_body(f[3])
+        data = parse_body(f[3], self.datas)
         headers = None if f[4] == "n" else self.dicts[int(f[4])]
         self.response[0] = b"" if f[5] == "E" else json.dumps(dec_json(f[5])).encode("utf-8")
         snap = self.snapshot(data)
@@ -581,6 +615,8 @@ class Env:
             self.dicts[int(f[1])] = parse_pairs(f[2])
         elif op == "pairs":
             self.pairs[int(f[1])] = parse_typed_pairs(f[2], f[3])
+        elif op == "data":
+            self.datas[int(f[1])] = dec_json(f[2])
         elif op == "class":
             self.make_class(int(f[1]), f[3], f[4], f[5])
         elif op == "mk":
@@ -878,7 +914,7 @@ def check_request(node, base, f, dicts, rep, what, suffix="", exact=None):
     """the clauses of the statement for one request; returns a message or None"""
     verb, path = f[0], dec_str(f[1]) + suffix
     params = None if f[2] == "n" else dicts[int(f[2])]
-    data = parse_body(f[3])
+    data = parse_body(f[3], dicts)
     headers = None if f[4] == "n" else dicts[int(f[4])]
     ch = {k.lower(): v for k, v in (headers or {}).items()}
     chains = node.chains()
@@ -1054,6 +1090,8 @@ def oracle(case, replies):
             dicts[int(f[1])] = parse_pairs(f[2])
         elif op == "pairs":
             dicts[int(f[1])] = parse_typed_pairs(f[2], f[3])
+        elif op == "data":
+            dicts[int(f[1])] = dec_json(f[2])
         elif op == "class":
             classes.add(int(f[1]), f[3], f[4], f[5])
         elif op in ("mk", "caller", "clone"):
@@ -1257,7 +1295,7 @@ def enc_body(b):
         return "b=" + (",".join(str(x) for x in b) if b else "-")
     if isinstance(b, str):
         return "s=" + enc_str(b)
-    return "j=" + enc_json(b)
+    raise ValueError("a structured body is a `data` object")
 
 
 class Builder:
@@ -1273,6 +1311,7 @@ class Builder:
         self.auth = {}       # connection -> number of authenticating adapters in its chain (approximate)
         self.kauth = {}      # caller -> the same for its connection
         self.lauth = {}      # list -> number of authenticating adapters
+        self.datas = []      # structured data= objects
         self.table = ClassTable()    # the caller classes declared so far
         self.kcls = {}       # caller -> class
 
@@ -1335,6 +1374,18 @@ class Builder:
         self.dicts.append((n, d))
         self.lines.append("dict %d %s" % (n, enc_pairs(d)))
         return str(n)
+
+    def body_ref(self, body):
+        """bytes / str / None travel inline; a structured body is an object of the caller (re-used now and then)"""
+        if body is None or isinstance(body, (bytes, str)):
+            return enc_body(body)
+        if self.datas and self.rng.random() < 0.35:
+            self.kinds.add("data:reused")
+            return "j=%d" % self.rng.choice(self.datas)
+        n = self.name()
+        self.datas.append(n)
+        self.lines.append("data %d %s" % (n, enc_json(body)))
+        return "j=%d" % n
 
     def params_ref(self):
         """n | a str dict | a dict with non-str values | a list / tuple of pairs (keys may repeat)"""
@@ -1483,7 +1534,7 @@ class Builder:
         raw = int(rng.random() < 0.08)
         if raw:
             self.kinds.add("raw_response")
-        return "%s %s %s %s %s %s %d" % (verb, enc_str(path), params, enc_body(body), headers, self.response(), raw)
+        return "%s %s %s %s %s %s %d" % (verb, enc_str(path), params, self.body_ref(body), headers, self.response(), raw)
 
     def lastid(self):
         """diagnostic line: request-id facts of the request just made"""
@@ -1620,7 +1671,7 @@ def _corpus():
                    "list 2 x/%s;p/%s" % (e("1."), e("/z")),
                    "clone 3 1 l=2", "clone 4 1 o=b/%s/%s" % (e("u"), e("p")), "clone 5 1 n",
                    "call 3 %s get %s n n n E 0" % (e("m"), e("/p")),
-                   "call 4 %s post %s n j=%s n E 0" % (e("m"), e("/p"), enc_json({"a": 1})),
+                   "data 8 %s" % enc_json({"a": 1}), "call 4 %s post %s n j=8 n E 0" % (e("m"), e("/p")),
                    "call 5 %s get %s n n n E 0" % (e("m"), e("p")), "call 1 %s get %s n n n E 0" % (e("m"), e("p"))]},
         # two-level chain, inner prefix outermost, one Authorization header
         {"lines": ["mk 1 s=%s o=p/%s H" % (e("http://h/"), e("/in")), "mk 2 c=1 o=b/%s/%s B" % (e("u:x"), e("p")),
@@ -1698,7 +1749,7 @@ def small_scope(rng, sample=None):
                                           "call 5 %s get %s n n n E 0" % (e("m"), pth), "cached 2 5 " + e("/cmp")]
                             if it:
                                 lines.append(it)
-                            lines += ["req 2 post %s n j=%s n %s 0" % (pth, enc_json({"a": 1}), resp),
+                            lines += ["data 8 %s" % enc_json({"a": [1]}), "req 2 post %s n j=8 n %s 0" % (pth, resp),
                                       "req 1 get %s n n n %s 0" % (pth, enc_json([]))]
                             if shape == "component":
                                 lines.append("call 5 %s get %s n n n %s 0" % (e("m"), pth, resp))
@@ -1733,7 +1784,7 @@ def search_cases(rng, tier):
 
 # ------------------------------------------------------------------ shrinking
 def _well_formed(lines):
-    defined = {"list": set(), "dict": set(), "conn": set(), "caller": set(), "class": set(), "hdict": set()}
+    defined = {"list": set(), "dict": set(), "conn": set(), "caller": set(), "class": set(), "hdict": set(), "data": set()}
 
     def tgt(tok):
         t = tok.split("=")
@@ -1744,7 +1795,8 @@ def _well_formed(lines):
         return t[0] != "l" or int(t[1]) in defined["list"]
 
     def args(f):
-        return (f[2] == "n" or int(f[2]) in defined["dict"]) and (f[4] == "n" or int(f[4]) in defined["hdict"])
+        return (f[2] == "n" or int(f[2]) in defined["dict"]) and (f[4] == "n" or int(f[4]) in defined["hdict"]) \
+            and (not f[3].startswith("j=") or int(f[3][2:]) in defined["data"])
     for l in lines:
         f = l.split()
         op = f[0]
@@ -1758,6 +1810,8 @@ def _well_formed(lines):
             defined["hdict"].add(int(f[1]))
         elif op == "pairs":
             defined["dict"].add(int(f[1]))
+        elif op == "data":
+            defined["data"].add(int(f[1]))
         elif op == "class":
             if f[3] != "-" and not all(int(b) in defined["class"] for b in f[3].split(";")):
                 return False
@@ -1860,8 +1914,8 @@ THEOREMS = [
     "C17.auth_accepts", "C17.auth_refused", "C17.auth_decodes", "C17.auth_decodes_b64", "C17.literals", "C17.url",
     "C17.url_one_slash", "C17.params_all_pairs", "C17.method", "C17.body", "C17.dumps_shape", "C17.response_chain",
     "C17.request_response", "C17.exception_propagates", "C17.frame", "C17.frame_reachable", "C17.chain_stable",
-    "C17.caller_unchanged", "C17.clone_list", "C17.get_conn_cached", "C17.get_conn_first", "C17.call_component",
-    "C17.nested_call_innermost", "C17.metas_first_base", "C17.caller_pmap",
+    "C17.aliasing_facts", "C17.caller_unchanged", "C17.clone_list", "C17.get_conn_cached", "C17.get_conn_first",
+    "C17.call_component", "C17.nested_call_innermost", "C17.metas_first_base", "C17.caller_pmap",
 ]
 
 LEVEL_TEXT = ("Kernel-checked for all heaps/histories/arguments on a heap model of conn_http/mcaller_http (explicit "
@@ -1876,14 +1930,19 @@ LEVEL_TEXT = ("Kernel-checked for all heaps/histories/arguments on a heap model 
               "body by type with json.dumps and bool(data) modelled, exactly one '/' between address and path in normal form "
               "(url, url_one_slash, method, body, dumps_shape); frame: no history "
               "without add_adapter on c changes any request through c (frame); adapters and do_request write only to the "
-              "fresh header object, no existing dict is ever written, caller lists only by the caller (caller_unchanged); "
+              "fresh header object, no existing dict is ever written, structured data objects are only read, caller lists only by "
+              "the caller (caller_unchanged, aliasing_facts); "
               "clone with nothing / one adapter / a list (clone_list); prefix cache (get_conn_*); params read as an association "
               "list, every pair kept in order (params_all_pairs); a wrapper call uses the components of the class's metas "
               "table, which is own-wins-else-first-base (call_component, metas_first_base, caller_pmap). Model = code by "
               "differential runs of operation histories with urllib's opener captured; independent oracle re-states every "
               "clause on the real Requests / returned values and re-issues a probe through every connection after every "
               "operation.")
-LEVEL_NOTE = ("Observation, outside the property: _MCALLERS_METAS is merged per direct base (first base first), not along the "
+LEVEL_NOTE = ("The aliasing structure of the model (a new dict object for RequestArguments.headers per request, a new adapter "
+              "list per connection, structured data objects only read) is hand-written and tied to the code by the "
+              "correspondence; the two facts it rests on (`headers.copy() if headers else {}`, `own_adapters + "
+              "parent_conn.adapters`) are re-read from the source by the translator on every run and re-decided "
+              "(aliasing_facts) - a weaker link than C16's bytecode reading. Observation, outside the property: _MCALLERS_METAS is merged per direct base (first base first), not along the "
               "MRO; when a later base overrides a wrapper that an earlier base merely inherits, get_conn() uses the "
               "inherited wrapper's component. The model follows the code (metas_first_base); the oracle judges component "
               "selection only where first-base-wins and the MRO agree; the differing shape is compared with the model only "
